@@ -128,6 +128,13 @@ static void run_case(long idx)
         if (where == 0) { memcpy(arena, dict, W.dictLen); memcpy(arena + W.dictLen, x, W.n); W2.dict = arena; x2 = arena + W.dictLen; } else { memcpy(arena, x, W.n); memcpy(arena + W.n, dict, W.dictLen); W2.dict = arena + W.n; x2 = arena; }
         g_fill = 0; ZSTD_CCtx* c = ZSTD_createCCtx_advanced(FMEM); size_t const nv = run_workload(c, &W2, &W.S, x2, var, cap, cd);
         compare("placement-prefix-adjacent", ref, nref, var, nv, &W, desc, where == 0 ? "prefix immediately before the source (deterministicRefPrefix=1)" : "prefix immediately after the source (deterministicRefPrefix=1)"); ZSTD_freeCCtx(c); free(arena); }
+    /* same sub-axis at the prefix lengths around the minimum the match finders index (8 bytes), one-shot (the source is then read in place) */
+    if (detPrefix && W.n <= 300000) for (size_t plen = 6; plen <= 10; plen++) { if (plen > W.dictLen) break;
+        workload W3 = W; W3.oneShot = 1; W3.dictLen = plen; uint8_t* refp = (uint8_t*)malloc(cap); uint8_t* arena = (uint8_t*)malloc(W.n + plen + 64);
+        g_fill = 0; ZSTD_CCtx* c = ZSTD_createCCtx_advanced(FMEM); size_t const nr = run_workload(c, &W3, &W.S, x, refp, cap, cd); ZSTD_freeCCtx(c);
+        if (!ZSTD_isError(nr)) { memcpy(arena, dict, plen); memcpy(arena + plen, x, W.n); W3.dict = arena; g_fill = 0; c = ZSTD_createCCtx_advanced(FMEM); size_t const nv = run_workload(c, &W3, &W.S, arena + plen, var, cap, cd); ZSTD_freeCCtx(c);
+            char what[96]; snprintf(what, sizeof what, "one-shot, %zu-byte prefix immediately before the source (deterministicRefPrefix=1)", plen); W3.dict = dict; compare("placement-prefix-adjacent", refp, nr, var, nv, &W3, desc, what); }
+        free(refp); free(arena); }
     /* axis: output-capacity sequence (same input slices and directives) */
     if (!W.oneShot) for (int k = 0; k < 2; k++) {
         hscript S2 = W.S; S2.nOut = 1 + (int)vr_u(&r, 3); for (int i = 0; i < S2.nOut; i++) S2.outPat[i] = k == 0 ? cap : (size_t[]){ 7, 513, 4096, 50000, 131072 }[vr_u(&r, 5)]; if (W.n > 200000) for (int i = 0; i < S2.nOut; i++) if (S2.outPat[i] < 513) S2.outPat[i] = 513;
